@@ -452,6 +452,7 @@ type rsWorld struct {
 	wantClosed  [2]bool // a graceful close of the connection was started: it must reach the closed state
 	chanClosing bool    // Channel.Close() was called on the relay: the channel must reach ChannelClosed
 	t09         string  // label of the T09 scenario for the histogram
+	c10LogPark  int32   // engine_c10timer.go: 1 = the next "Too many tombstones" warning parks its goroutine
 }
 
 func (w *rsWorld) mask() int64 {
@@ -475,7 +476,7 @@ func newRsWorld(rng *rand.Rand, cancelOn bool, maxTombs int) (*rsWorld, error) {
 	opts := &tchannel.ChannelOptions{
 		RelayHost:              w.host,
 		RelayMaxTombs:          uint64(maxTombs),
-		RelayTimerVerification: true,
+		RelayTimerVerification: !c10TimerRecycle, // engine_c10timer.go: its cases may ask for recycled (pooled) relay timers
 		RelayMaxTimeout:        10 * time.Minute,
 		Dialer: func(ctx context.Context, network, hostPort string) (net.Conn, error) {
 			d := net.Dialer{}
@@ -486,7 +487,7 @@ func newRsWorld(rng *rand.Rand, cancelOn bool, maxTombs int) (*rsWorld, error) {
 			return &rsConn{Conn: c, g: w.gates[1]}, nil
 		},
 		DefaultConnectionOptions: tchannel.ConnectionOptions{SendBufferSize: 64, PropagateCancel: cancelOn},
-		Logger:                   tchannel.NullLogger,
+		Logger:                   c10TimerLoggerFor(w), // engine_c10timer.go: NullLogger with one park point ("Too many tombstones")
 	}
 	rly, err := tchannel.NewChannel("relay", opts)
 	if err != nil {
@@ -1373,6 +1374,10 @@ func engineRelaySched(rng *rand.Rand, n int, tier string, o *Out, wire bool) {
 		} else {
 			w.close()
 		}
+	}
+	if wire {
+		// C10, strengthening V10: the timeout-vs-finishing-frame window of the relay timer protocol
+		c10TimerCases(rng, n, tier, o)
 	}
 	// tombstone GC (3 s after the last entomb) and graceful close of the lingering relays
 	if len(lingering) > 0 {
